@@ -39,7 +39,7 @@ package mqtt
 
 //@ func (*reconnectClient).Connect$1
 //@   mode int
-//@   props C09 C13 C08 C01 C03
+//@   props C09 C13 C08 C01 C03 C17
 //@   note the loop goroutine of the reconnecting client. Trusted: Connect is called once per reconnectClient (a second call would close c.done twice).
 //@   requires c != nil && c.options != nil && c.RetryClient != nil && c.dialer != nil && ctx != nil
 //@   requires len(clientID) <= 0xFFFF
@@ -57,12 +57,12 @@ package mqtt
 //@   loop 1 iter[C09] backoff: evCount("time.After") == 1 && evArg[time.Duration]("time.After", 0, 0) == waited &&
 //@        reconnWait_next == ite(2*waited > wmax, wmax, 2*waited) &&
 //@        evArg[<-chan time.Time]("select", evCount("select")-1, 0) == evRet[<-chan time.Time]("time.After", 0, 0) && evRet[int]("select", evCount("select")-1, 0) == 0
-//@   loop 1 iter[C09] same_connect: evCount("(*RetryClient).Connect") <= 1 && (evCount("(*RetryClient).Connect") == 1 ==>
+//@   loop 1 iter[C09,C17] same_connect: evCount("(*RetryClient).Connect") <= 1 && (evCount("(*RetryClient).Connect") == 1 ==>
 //@        evArg[*RetryClient]("(*RetryClient).Connect", 0, 0) == c.RetryClient && evArg[string]("(*RetryClient).Connect", 0, 2) == clientID &&
 //@        sameSlice(evArg[[]ConnectOption]("(*RetryClient).Connect", 0, 3), opts) &&
 //@        evCount("(*RetryClient).SetClient") == 1 && evIndex("(*RetryClient).SetClient", 0) < evIndex("(*RetryClient).Connect", 0) &&
 //@        evArg[*BaseClient]("(*RetryClient).SetClient", 0, 2) == evRet[*BaseClient]("Dialer.DialContext", 0, 0))
-//@   loop 1 iter[C09] connect_iff_dialled: evCount("(*RetryClient).Connect") == ite(evRet[error]("Dialer.DialContext", 0, 1) == nil, 1, 0)
+//@   loop 1 iter[C09,C17] connect_iff_dialled: evCount("(*RetryClient).Connect") == ite(evRet[error]("Dialer.DialContext", 0, 1) == nil, 1, 0)
 //@   loop 1 iter[C09] one_live_transport: evRet[error]("Dialer.DialContext", 0, 1) == nil ==>
 //@        evCount("Transport.Close") == 1 && evArg[io.ReadWriteCloser]("Transport.Close", 0, 0) == evRet[*BaseClient]("Dialer.DialContext", 0, 0).Transport &&
 //@        evCount("recv") == 1 && evArg[<-chan struct{}]("recv", 0, 0) == evRet[<-chan struct{}]("(*BaseClient).Done", evCount("(*BaseClient).Done")-1, 0) &&
